@@ -60,6 +60,8 @@ def spawn_stmt(form, fn):
 
 
 HANG_S = 20
+# known finding ctx-error-identity-lost-across-builtins: exactly these texts (see known_findings.json)
+KNOWN_CTXTEXT = ("context canceled", "context deadline exceeded", "wait error: context canceled", "wait error: context deadline exceeded")
 
 
 def judge(res, bound_ms):
@@ -74,6 +76,8 @@ def judge(res, bound_ms):
         return "script code kept running after the call returned: ticks advanced %s" % json.dumps(res["advanced"])
     if res.get("err") == "nil":
         return "the call returned success although its context was cancelled"
+    if res.get("err") == "ctxtext" and res.get("msg") not in KNOWN_CTXTEXT:
+        return "the call returned another error that merely quotes the context's error: %r" % res.get("msg", "")[:120]
     if res.get("err") == "other" and res.get("cancelled"):
         return "the call returned %r instead of the context's error" % res.get("msg", "")[:120]
     if res.get("cancelled") and res.get("after_cancel_ms", 0) > bound_ms:
@@ -113,12 +117,15 @@ def run(cx):
     bound = 3000
     suspects = []
     nrun = 0
+    n_known_ctxtext = 0
     for r_ in vlib.read_ndjson(sout):
         res = r_["res"]
         if res.get("k") not in ("ok", "hang") and not judge(res, bound):
             cx.notes.append("scenario %s: driver result %s" % (r_["id"], str(res)[:150]))
             continue
         nrun += 1
+        if res.get("err") == "ctxtext" and res.get("msg") in KNOWN_CTXTEXT:
+            n_known_ctxtext += 1
         why = judge(res, bound)
         if why:
             suspects.append((r_["id"], why))
@@ -159,6 +166,13 @@ def run(cx):
             cx.violation("cancellation scenario %s: %s (reproduced %d/3); script=%r" % (
                 json.dumps(s), hits[0], len(hits), rows[i]["src"][:400]),
                 {"leg": "scenario", "scenario": s, "src": rows[i]["src"], "why": hits, "cancel_at": rows[i]["cancel_at"]})
+    for f in cx.known_findings():
+        if f["id"] == "ctx-error-identity-lost-across-builtins":
+            if n_known_ctxtext:
+                cx.report_known(f)
+            else:
+                cx.notes.append("known finding %s: no scenario shows it any more" % f["id"])
+    cx.cover["returns_with_text_of_context_error_only"] = n_known_ctxtext
     cx.sample({"scenario": rows[len(rows) // 2]["scen"], "src": rows[len(rows) // 2]["src"]})
     cx.cover.update({
         "evaluations": nrun, "distinct_nontrivial": len([1 for r_ in rows if r_["scen"]["tree"]["depth"] > 0 or r_["scen"]["main"] not in ("for", "for3")]),
